@@ -120,14 +120,16 @@ def rule_r2(chk: Check) -> None:
         chk.ob("R2", f"{wr.key}: flush follows encrypt", ok)
     if cl is not None:
         g = build_cfg(chk.proj, cl)
-        tcp = nodes_calling(g, lambda c: method_call(c) is not None and method_call(c)[1] == "close" and (dotted(method_call(c)[0]) or "").endswith(".transport"))
+        from .common import absent_edges, alias_map, canon_dotted
+
+        am = alias_map(cl.node)
+        tcp = nodes_calling(g, lambda c: method_call(c) is not None and method_call(c)[1] == "close" and canon_dotted(method_call(c)[0], am).endswith(".transport"))
         sh = {n.id for n in nodes_calling(g, lambda c: method_call(c) is not None and method_call(c)[1] == "shutdown")}
         fl = [n for n in nodes_calling(g, lambda c: method_call(c) is not None and method_call(c)[1] == "_flush_outgoing")]
         ok = bool(tcp) and bool(sh) and bool(fl)
         if ok:
-            # with a live tls_conn (T edge of its test), TCP close is not reachable without shutdown
-            tests = [n for n in g.nodes if n.kind == "test" and (dotted(n.ast) or "").endswith("tls_conn")]
-            blocked_e = {(t.id, b, lab) for t in tests for b, lab in g.succ[t.id] if lab == "F"}
+            # with a live tls_conn (present edge of its test), TCP close is not reachable without shutdown
+            blocked_e = absent_edges(g, lambda d: d.endswith("tls_conn"), am)
             par = g.reach([g.entry.id], blocked_nodes=sh, blocked_edges=blocked_e, follow=normal_only)
             if any(t.id in par for t in tcp):
                 ok = False
@@ -139,6 +141,50 @@ def rule_r2(chk: Check) -> None:
         if not ok:
             chk.finding("R2", cl.key, "close-without-drain", "close() can close the TCP transport without TLS shutdown and a flush of pending ciphertext: the tail of the response (and close_notify) is lost", cl.loc())
         chk.ob("R2", f"{cl.key}: shutdown + flush precede TCP close", ok)
+    # no discarding teardown once application data may be queued: transport.abort()
+    # throws away asyncio's write buffer, transport.close() flushes it first
+    n_abort = 0
+    for ci in (chk.proj.cls(TLS_PROTO), w):
+        for m in ci.methods.values():
+            g = build_cfg(chk.proj, m)
+            ab = nodes_calling(g, lambda c: method_call(c) is not None and method_call(c)[1] == "abort" and (dotted(method_call(c)[0]) or "").endswith("transport"))
+            if not ab:
+                continue
+            n_abort += len(ab)
+            # allowed only where the handshake is known to be incomplete
+            tests = [n for n in g.nodes if n.kind == "test" and "handshake_complete" in norm(n.ast)]
+            blocked_e = set()
+            for t in tests:
+                neg = isinstance(t.ast, ast.UnaryOp) and isinstance(t.ast.op, ast.Not)
+                for b, lab in g.succ[t.id]:
+                    if lab == ("T" if neg else "F"):
+                        blocked_e.add((t.id, b, lab))
+            par = g.reach([g.entry.id], blocked_edges=blocked_e)
+            for a in ab:
+                bad = a.id in par
+                if bad:
+                    chk.finding(
+                        "R2", m.key, f"abort-after-data:{norm(a.ast)[:40]}",
+                        "the TCP transport is abort()ed on a path on which the handshake may be complete: abort() discards response ciphertext still queued in the transport's write buffer (close() flushes it), so a response can arrive truncated on this backend only",
+                        a.where(),
+                    )
+                chk.ob("R2", f"{m.key}: `{norm(a.ast)[:40]}` only before the handshake completes", not bad)
+    # the inner protocol: abort() after a response write drops the queued tail on both backends
+    sp = chk.proj.cls(SERVER_PROTO)
+    for m in sp.methods.values():
+        if not any(method_call(c) and method_call(c)[1] == "abort" for c in calls(m.node)):
+            continue
+        g = Builder(chk.proj, inline_self_methods, 4).build(m)
+        ab = nodes_calling(g, lambda c: method_call(c) is not None and method_call(c)[1] == "abort" and (dotted(method_call(c)[0]) or "").endswith("transport"))
+        wn = nodes_calling(g, lambda c: method_call(c) is not None and method_call(c)[1] in ("write", "writelines") and (dotted(method_call(c)[0]) or "").endswith("transport"))
+        n_abort += len(ab)
+        after = g.reach([b for x in wn for b, lab in g.succ[x.id] if lab not in ("exc", "raise")]) if wn else set()
+        for a in ab:
+            bad = a.id in after
+            if bad:
+                chk.finding("R2", m.key, f"abort-after-write:{norm(a.ast)[:40]}", "the transport is abort()ed after a response write: abort() discards what the transport has not sent yet, so a large response arrives truncated", a.where())
+            chk.ob("R2", f"{m.key}: `{norm(a.ast)[:40]}` not after a response write", not bad)
+    chk.ob("R2", "no discarding teardown (transport.abort) once data may be queued", True, f"{n_abort} abort sites examined", nontrivial=False)
     tls = chk.proj.cls(TLS_PROTO)
     fo = tls.methods.get("_flush_outgoing")
     if fo is None:
